@@ -505,6 +505,7 @@ bool qvector_setat(qvector_t *vector, int index, const void *data) {
     vector->lock(vector);
     void *old_data = get_at(vector, index, false);
     if (old_data == NULL) {
+        vector->unlock(vector);
         return false;
     }
     memcpy(old_data, data, vector->objsize);
@@ -569,6 +570,7 @@ void *qvector_popat(qvector_t *vector, int index) {
     vector->lock(vector);
     void *data = get_at(vector, index, true);
     if (data == NULL) {
+        vector->unlock(vector);
         return NULL;
     }
 
@@ -832,6 +834,7 @@ void qvector_reverse(qvector_t *vector) {
     int j;
     void *tmp = malloc(vector->objsize);
     if (tmp == NULL) {
+        vector->unlock(vector);
         errno = ENOMEM;
         return;
     }
